@@ -331,6 +331,13 @@ pub open spec fn ptr_n(t: ValueType, n: nat) -> ValueType
 {
 	if n == 0 { t } else { ValueType::Pointer { deref_type: Box::new(ptr_n(t, (n - 1) as nat)) } }
 }
+// the type the last member is unified with: the type built from the steps BELOW the member (s.arr[2] = v: arr is some array of
+// typeof(v)) whenever such a type exists; when it is not well formed (no type allows those steps: an array of array views),
+// the value's own type, so that the conflict is reported between the member and the value (E504)
+pub open spec fn member_type_spec(vt: Option<Poisonable<ValueType>>, steps: Seq<ReferenceStep>) -> Option<Poisonable<ValueType>> {
+	let built = build_spec(vt, steps_below_member(steps), false);
+	if opt_wf(built) { built } else { vt }
+}
 pub struct AaRun {
 	pub steps1: Seq<ReferenceStep>, pub a1: TState,                 // after the index expressions
 	pub steps2: Seq<ReferenceStep>, pub excess: u8, pub a2: TState, // after analyze_assignment_steps (automatic dereferences made explicit)
@@ -368,7 +375,7 @@ pub open spec fn aa_run(r: Reference, vt: Option<Poisonable<ValueType>>, av: Opt
 	let symbol = match member { Some(m) => m, None => base };
 	let full = build_spec(vt, s2.0, false);
 	let put1 = put_spec(a2.symbols, base, full);
-	let put2 = if put1.1 is Ok && member is Some { put_spec(put1.0, member->Some_0, build_spec(vt, steps_below_member(s2.0), false)) } else { put1 };
+	let put2 = if put1.1 is Ok && member is Some { put_spec(put1.0, member->Some_0, member_type_spec(vt, s2.0)) } else { put1 };
 	AaRun { steps1: f.0, a1: f.1, steps2: s2.0, excess: s2.1, a2, member, full, put1, put2,
 		address_error: address_error_spec(r, base, vt, av, valid_declaration_spec(a2.symbols, symbol), s2.1) }
 }
@@ -393,7 +400,6 @@ pub open spec fn aa_obligations(r: Reference, vt: Option<Poisonable<ValueType>>,
 	&&& r.base is Ok ==> {
 		let run = aa_run(r, vt, av, a);
 		&&& opt_wf(run.full)                                       // assert!(vt.is_wellformed()) in do_update_symbol
-		&&& run.member is Some ==> opt_wf(build_spec(vt, steps_below_member(run.steps2), false))     // the same assert!, member put
 		&&& run.address_error is Some && run.address_error->Some_0 is MismatchedAddressInAssignment
 			==> value_type::wf(run.address_error->Some_0->MismatchedAddressInAssignment_assignee_type)     // assert!(assignee_type.is_wellformed())
 	}
